@@ -291,6 +291,17 @@ def ns_clear(eng, args, kwargs, st, node):
     return [(NONE, st)]
 
 
+@method('Namespace.update')
+def ns_update(eng, args, kwargs, st, node):
+    # entries of another mapping are copied into this namespace: it now holds entries; the argument is only read
+    ref = args[0]
+    o = st.heap[ref.loc]
+    f = dict(o.fields)
+    f['cleared'] = VBool(eng.ctx.fresh('ns_empty_after_update', BOOL))
+    st.heap[ref.loc] = HInst(o.cls, f, o.view)
+    return [(NONE, st)]
+
+
 def install_repo_models(eng):
     """Models keyed by functions of the tree under verification."""
     import importlib
